@@ -113,6 +113,13 @@ func scenC20(r *Run) {
 	r.Param("mock_service", withMock)
 	r.Param("recovery", rec.String())
 	downstream := 0
+	// what a failing downstream says: in a third of the runs the very words of the breaker's own error (a server
+	// behind it whose breaker is open) - still a failure of a forwarded call, not a rejection by this breaker
+	errText := "downstream failure"
+	if r.Plan(3) == 0 {
+		errText = circuitbreaker.ErrBreaker.Error()
+	}
+	r.Param("downstream_error", errText)
 	mkClient := func() (*core.Client, *circuitbreaker.CircuitBreaker) {
 		opts := []circuitbreaker.Option{circuitbreaker.WithThreshold(uint64(threshold)), circuitbreaker.WithRecoverTime(rec)}
 		if withMock {
@@ -138,7 +145,7 @@ func scenC20(r *Run) {
 			c.leaveSeq = sim.Event("downstream-done", c.id, string(c.outcome))
 			switch c.outcome {
 			case 'E':
-				return nil, errors.New("downstream failure")
+				return nil, errors.New(errText)
 			case 'P':
 				panic("downstream panic")
 			}
